@@ -42,6 +42,9 @@ def gen_workbook(rng, cyclic):
             if form < 0.55:
                 d1, d2 = rng.choice(['', '$']), rng.choice(['', '$'])
                 parts.append('%s%s%s%s%d' % (pre, d1, COLS[q[1]], d2, q[2] + 1))
+                if rng.random() < 0.2:
+                    # a dependency reached through IFERROR's guarded argument is a dependency like any other (cycles through it included)
+                    parts[-1] = 'IFERROR(%s+1,0)' % parts[-1]          # no * here: a * between two quoted criteria would make one greedy pattern literal
                 ds.append(q)
             elif form < 0.67:
                 # SUMIF whose sum range is written SHORTER than (or as one cell of) the criteria range: Excel — and the translator — sum the
